@@ -6,6 +6,8 @@ import Driver.Ops.C05
 import Driver.Ops.C06
 import Driver.Ops.C07
 import Driver.Ops.C08
+import Driver.Ops.C09
+import Driver.Ops.C10
 import Driver.Ops.C12
 import Driver.Ops.C14
 import Driver.Ops.C15
@@ -14,8 +16,6 @@ import Driver.Ops.C18
 import Driver.Ops.C19
 import Driver.Ops.C20
 import Driver.Ops.Std
-import Driver.Ops.C09
-import Driver.Ops.C10
 namespace ZVD
 
 def allOps : OpTable :=
@@ -26,6 +26,8 @@ def allOps : OpTable :=
   ++ opsC06
   ++ opsC07
   ++ opsC08
+  ++ opsC09
+  ++ opsC10
   ++ opsC12
   ++ opsC14
   ++ opsC15
@@ -34,8 +36,6 @@ def allOps : OpTable :=
   ++ opsC19
   ++ opsC20
   ++ opsStd
-  ++ opsC09
-  ++ opsC10
 
 def dispatch (op : String) (a : Args) : Except String String :=
   match allOps.find? (·.1 == op) with
